@@ -61,6 +61,17 @@ fn weed_records(c: &Case, anc: &[Vec<u8>], samples: &[Sample]) -> Vec<Vec<u8>> {
             recs.extend(s.1.iter().cloned());
         }
     }
+    // a third of the weed files also hold a closed replicon cut at another point than in the samples (the
+    // first ancestor record rotated by half its length): a weed record is a linear sequence, whatever its
+    // header says about topology
+    if c.wrap % 3 == 2 {
+        if let Some(a) = anc.iter().find(|a| a.len() >= 2 * k + 2) {
+            let p = a.len() / 2;
+            let mut r = a[p..].to_vec();
+            r.extend_from_slice(&a[..p]);
+            recs.push(r);
+        }
+    }
     if recs.iter().all(|r| model::windows(r, k).is_empty()) {
         // must contain at least one window; this filler is unrelated to the samples
         recs.push(gen::filler(k, 11));
@@ -76,7 +87,8 @@ fn check(c: &Case, ctx: &Ctx) -> Outcome {
     let r: Result<(usize, usize, bool), Outcome> = (|| {
         must_ok(&build(ctx, &dir, "x", &samples, k, rc, 1), "ska build")?;
         // headers with descriptions; several records may share their first token (e.g. copies of one element)
-        let wnames: Vec<String> = (0..wrecs.len()).map(|i| if c.wrap % 2 == 1 { format!("IS{} copy{i} len={}", i / 3, wrecs[i].len()) } else { format!("r{i}") }).collect();
+        // (descriptions in the style assemblers write them, topology tag included)
+        let wnames: Vec<String> = (0..wrecs.len()).map(|i| if c.wrap % 2 == 1 { format!("IS{} copy{i} len={}", i / 3, wrecs[i].len()) } else if c.wrap % 3 == 2 { format!("{} length={} depth=1.00x circular=true", i + 1, wrecs[i].len()) } else { format!("r{i}") }).collect();
         cli::write_fasta(&dir.join("weed.fa"), &wnames, &wrecs, if c.wrap == 0 { None } else { Some(c.wrap as usize) });
         let (_d, full) = model_table(&samples, k, rc);
         let wset: BTreeSet<Vec<u8>> = model::build_sample(&wrecs, k, rc).keys().cloned().collect();
